@@ -10,6 +10,7 @@ package main
 // single call makes no progress for 10 s).
 
 import (
+	"strings"
 	"fmt"
 	"os"
 	"strconv"
@@ -263,6 +264,107 @@ func enumC11(R *vlib.Out, maxLen, maxTok int) {
 	if !stop {
 		enumMisplaced(R, maxTok-2, &stop)
 	}
+	if !stop {
+		enumFramingOrders(R, &stop)
+	}
+}
+
+// enumFramingOrders is family (iv): the framing fields themselves in every order and with impossible
+// values - BeginString, BodyLength (negative, zero, too small, too large, right), MsgType, MsgSeqNum and
+// CheckSum (wrong, right) as the first, a middle or the last field, present once or not at all, the
+// string ending with or without a delimiter.  Every ordered selection of up to four of the fields, and
+// each field alone.  (The decoder locates these fields one by one; code that assumes "the CheckSum
+// field has a delimiter in front of it" or "BodyLength is not negative" meets its counter-example here.)
+func enumFramingOrders(R *vlib.Out, stop *bool) {
+	targets := c11Targets()
+	fieldSets := [][]string{
+		{"8=FIX.4.4"},
+		{"9=-3", "9=-1", "9=0", "9=5", "9=61", "9=99999999999999999999", "9=", "9"},
+		{"35=0", "35=A", "35="},
+		{"34=1", "34=x"},
+		{"10=000", "10=", "10", "10=@@@"},
+	}
+	var toks []string
+	for _, fs := range fieldSets {
+		toks = append(toks, fs...)
+	}
+	n := 0
+	try := func(tg c11Target, ti int, seq []string) {
+		for _, end := range []string{"\x01", ""} {
+			n++
+			if n%512 == 0 && vlib.Expired() {
+				R.Cap("deadline")
+				*stop = true
+				return
+			}
+			if !vlib.Mine(n + ti) {
+				continue
+			}
+			body := strings.Join(seq, "\x01") + end
+			variants := [][]byte{[]byte(body)}
+			// with the right checksum for whatever precedes a trailing CheckSum field, and with the right length
+			if fixed := c11FixSum([]byte(body)); fixed != nil {
+				variants = append(variants, fixed)
+			}
+			for _, msg := range variants {
+				c11One(R, tg, msg)
+				for _, tag := range []string{"8", "9", "35", "34", "10"} {
+					c11Lookup(R, msg, tag)
+				}
+			}
+			R.ClassD(fmt.Sprintf("framing-order/%s/%d/%d", tg.name, len(seq), n%128))
+			if len(seq) == 3 {
+				R.Sample(4, map[string]string{"target": tg.name, "framing_order": vlib.Show([]byte(body))})
+			}
+		}
+	}
+	for ti, tg := range targets {
+		if ti > 1 {
+			break // Heartbeat and Logon: framing is the same for every type
+		}
+		var rec func(seq []string, used uint64)
+		rec = func(seq []string, used uint64) {
+			if *stop {
+				return
+			}
+			if len(seq) > 0 {
+				try(tg, ti, seq)
+			}
+			if len(seq) == 4 {
+				return
+			}
+			for k, t := range toks {
+				if used&(1<<uint(k)) != 0 {
+					continue
+				}
+				rec(append(append([]string{}, seq...), t), used|1<<uint(k))
+			}
+		}
+		rec(nil, 0)
+	}
+}
+
+// c11FixSum replaces the value of a trailing "10=..." field by the checksum of what precedes it (nil if
+// the string does not end with such a field).
+func c11FixSum(b []byte) []byte {
+	s := string(b)
+	i := strings.LastIndex(s, "10=")
+	if i < 0 || (i > 0 && s[i-1] != 1) {
+		return nil
+	}
+	rest := s[i+3:]
+	if strings.Contains(strings.TrimSuffix(rest, "\x01"), "\x01") {
+		return nil
+	}
+	sum := 0
+	for _, c := range []byte(s[:i]) {
+		sum += int(c)
+	}
+	end := ""
+	if strings.HasSuffix(rest, "\x01") {
+		end = "\x01"
+	}
+	return []byte(s[:i] + fmt.Sprintf("10=%03d", sum%256) + end)
 }
 
 // enumMisplaced is family (iii): byte strings that pass the library's integrity check although the
